@@ -5,8 +5,9 @@
 (*   kind   element of Kinds (the driver names the packet type / extension it sent)  *)
 (*   h      handle token named by the request: n = the n-th handle the server issued *)
 (*          in this stream (from the HANDLE responses, in order), 0 = never issued    *)
-(*   resp   Seq of [type, wf, newh]: type in Types, wf = body parses as that type,    *)
-(*          newh = token of the handle a HANDLE response carries (else 0)             *)
+(*   resp   Seq of [type, wf, newh, code]: type in Types, wf = body parses as that    *)
+(*          type, newh = token of the handle a HANDLE response carries (else 0),      *)
+(*          code = status code of a STATUS response (else -1)                         *)
 (*   stuck  TRUE if the request loop was observed spinning / silent on this request   *)
 (*   foreign number of response packets seen so far whose id belongs to no request    *)
 (*   size, off, len, blk  check-file arguments and the file's size (else 0)           *)
@@ -45,7 +46,7 @@ TNext ==
          THEN files' = files \cup {R.resp[1].newh} /\ nexth' = nexth + 1 /\ UNCHANGED dirs
        ELSE IF got = "HANDLE" /\ R.kind = "opendir"
          THEN dirs' = dirs \cup {R.resp[1].newh} /\ nexth' = nexth + 1 /\ UNCHANGED files
-       ELSE IF R.kind = "close" /\ V /\ got # "none"
+       ELSE IF R.kind = "close" /\ V /\ got = "STATUS" /\ R.resp[1].code = 0     \* a close that failed keeps the handle
          THEN files' = files \ {R.h} /\ dirs' = dirs \ {R.h} /\ UNCHANGED nexth
        ELSE UNCHANGED <<files, dirs, nexth>>
   /\ UNCHANGED <<inq, nsent, nserved, nresp, last, spinning>>
